@@ -52,6 +52,8 @@ package main
 // upload directory whose name ends in .json; every such entry is removed.
 // (The two directories are different paths: NewDir joins "local" and "upload"
 // to the same parent. Path contents are not modelled, hence a precondition.)
+//@ ghost readLocal bool
+//@ ghost readUpload bool
 //@ contract runClean
 //@   requires telemetry.Default.LocalDir() != telemetry.Default.UploadDir()
 //@   at call Remove#1: ghost $removes = $removes+1
@@ -61,7 +63,14 @@ package main
 //@   at call Name#1: ghost $rm = false
 //@   loop 3: invariant (rangeindex >= 0 ==> !$rm) && len(suffixes) <= 2 && (!remove && rangeindex >= 0 ==> !strings.HasSuffix(entry.Name(), suffixes[0])) && (!remove && rangeindex >= 1 ==> !strings.HasSuffix(entry.Name(), suffixes[1]))
 //@   at loop 2 end: assert wanted(dir, entry.Name()) && !entry.IsDir() ==> $rm
+// Both data directories are listed, whatever happens with the first one (one
+// that is missing or unreadable is skipped, not the end of the command).
+//@   requires !$readLocal && !$readUpload
+//@   at call ReadDir#1: ghost $readLocal = $readLocal || arg0 == telemetry.Default.LocalDir()
+//@   at call ReadDir#1: ghost $readUpload = $readUpload || arg0 == telemetry.Default.UploadDir()
+//@   loop 1: invariant (visited(rangeexpr, telemetry.Default.LocalDir()) ==> $readLocal) && (visited(rangeexpr, telemetry.Default.UploadDir()) ==> $readUpload)
+//@   ensures $readLocal && $readUpload
 //@   loop 1: invariant $fsops-old($fsops) == $removes-old($removes)
 //@   loop 2: invariant $fsops-old($fsops) == $removes-old($removes)
 //@   loop 3: invariant $fsops-old($fsops) == $removes-old($removes)
-//@   modifies $fsops, $removes, $rm
+//@   modifies $fsops, $removes, $rm, $readLocal, $readUpload
